@@ -213,6 +213,18 @@ pub fn expect(
         // RFC 6891 6.1.1 / RFC 8945 5.1: OPT and TSIG are additional-section pseudo-records; one that
         // sits in the answer or authority section makes the message malformed
         Ok(m) if m.answers.iter().chain(&m.authorities).any(|r| r.rtype == wl::T_OPT || r.rtype == 250) => BodyState::Malformed,
+        // RFC 1035 3.4.1 / RFC 3596 2.2: the RDATA of a class-IN A record is 4 octets, of an AAAA record
+        // 16; any other RDLENGTH cannot be read as that record. (UPDATE messages are exempt: RFC 2136
+        // 2.4/2.5 uses empty RDATA for its delete and prerequisite forms.)
+        Ok(m) if h.opcode != OP_UPDATE
+            && m.answers
+                .iter()
+                .chain(&m.authorities)
+                .chain(&m.additionals)
+                .any(|r| r.class == 1 && ((r.rtype == wl::T_A && r.rdlen != 4) || (r.rtype == wl::T_AAAA && r.rdlen != 16))) =>
+        {
+            BodyState::Malformed
+        }
         Ok(_) if pristine => BodyState::WellFormed,
         Ok(_) => BodyState::Unknown,
     };
